@@ -3612,6 +3612,42 @@ theorem C09_aggr_writer_real_round_trip (env : Env Nat) (hops : env.ops = dblOps
   have := C09_aggr_accept env hagg .real id (fun _ => rfl) _ (by simpa using hne) hok l sk rest
   simpa [List.map_map, Function.comp_def] using this
 
+/-- **aggregate of NUMBER, written and read back — every finite double** (elements read by `ReadNumber`, as the repaired
+    `RealAggregate::ReadValue` does: `numberElemReadsNumber`) -/
+theorem C09_aggr_writer_number_round_trip (env : Env Nat) (hops : env.ops = dblOpsRT) (hcfg : env.lex.criSkipsComments = true)
+    (hagg : env.cfg.aggrSkipsComments = true) (hnum : env.cfg.numberElemReadsNumber = true) (d : Dict) (vs : List Nat)
+    (hne : vs ≠ [])
+    (hr : ∀ v ∈ vs, v < 2 ^ 64 ∧ (v / Dbl.pow2 52 % 2048 == 2047) = false ∧ (v == Dbl.realNullBits) = false)
+    (l : List Byte) (sk : Bool) (rest : List Byte) :
+    aggrRead env .number (G l (writeAggr env.ops env.cfg d .number (vs.map (fun v => (Elem.atom (.real v) : Elem Nat))) ++ rest) sk) =
+      .ok (.null, some (vs.map (fun v => (Elem.atom (.real v) : Elem Nat))),
+        G ((writeAggr env.ops env.cfg d .number (vs.map (fun v => (Elem.atom (.real v) : Elem Nat)))).reverse ++ l) rest sk) := by
+  have hw : writeAggr env.ops env.cfg d .number (vs.map (fun v => (Elem.atom (.real v) : Elem Nat))) =
+      40 :: renderQ ((vs.map (fun v => (Atom.real v : Atom Nat))).map
+        (fun a => (⟨writeAtomCore env.ops .number a, [], [], .atom a⟩ : ElemQ Nat))) := by
+    unfold writeAggr
+    have := writeNodes_atoms env.ops env.cfg d .number (writeAtomCore env.ops .number) (fun sc a => rfl)
+      (vs.map (fun v => (Atom.real v : Atom Nat))) [] (by simpa using hne)
+    simp only [List.map_map, Function.comp_def] at this
+    simp only [List.cons_append, List.nil_append, List.map_map, Function.comp_def]
+    rw [this]
+  rw [hw]
+  have hok : ∀ e ∈ (vs.map (fun v => (Atom.real v : Atom Nat))).map
+      (fun a => (⟨writeAtomCore env.ops .number a, [], [], .atom a⟩ : ElemQ Nat)), ElemReads env .number id e := by
+    intro e he
+    simp only [List.map_map, List.mem_map, Function.comp_def] at he
+    obtain ⟨v, hv, rfl⟩ := he
+    obtain ⟨h1, h2, h3⟩ := hr v hv
+    have hshape := dbl_fmtShortest_shape v h2
+    obtain ⟨dec, hp, hdv⟩ := dbl_fmtShortest_stable v (C09_writer_seventeen_digits_convert_back v h1 h2)
+    obtain ⟨hreal, hden⟩ := C09_write_real_conforming dblOpsRT v hshape
+    have htok : writeAtomCore env.ops .number (Atom.real v) = attrWrite dblOpsRT .real (.real v) := by rw [hops]; rfl
+    rw [htok]
+    exact ElemReads.number env hcfg hagg hnum _ [] [] dec v (Or.inl hreal) (by rw [hden]; exact hp) (by rw [hops]; exact hdv)
+      (by rw [hops]; exact h3) (Seps.blanks [] (by simp)) (Seps.blanks [] (by simp))
+  have := C09_aggr_accept env hagg .number id (fun _ => rfl) _ (by simpa using hne) hok l sk rest
+  simpa [List.map_map, Function.comp_def] using this
+
 /-- **aggregate of aggregates, written and read back**: the stored raw texts `(uᵢ)` (`RawS`: balanced, string literals of the
     grammar allowed) are written as they are, comma-separated, and read back to the same texts -/
 theorem C09_aggr_writer_nested_round_trip {F} (env : Env F) (hagg : env.cfg.aggrSkipsComments = true) (d : Dict)
